@@ -141,5 +141,5 @@ def check(case):
 
 SUBCHECKS = [
     Sub("deform", check, strategy=lambda tier: case_strategy(),
-        quick=2000, thorough=50000, min_share={"anchors-used:2+": 0.3, "conf:collinear-anchor": 0.08}),
+        quick=3000, thorough=150000, min_share={"anchors-used:2+": 0.3, "conf:collinear-anchor": 0.08}),
 ]
